@@ -26,7 +26,7 @@ func (eng *Engine) newFV(fn *ssa.Function, c *Contract, pre []*Family) *FV {
 		blockOut: map[*ssa.BasicBlock]*State{}, edgeSt: map[[2]int]*State{},
 		loops: map[*ssa.BasicBlock]*LoopInfo{}, kindCount: map[string]int{},
 		unmodelled: map[string]bool{}, assumptionsUsed: map[string]bool{}, calleesUsed: map[string]bool{},
-		safetyOff: map[string]bool{}, preFams: pre, rootOf: map[string]string{}, refKinds: map[string]string{},
+		safetyOff: map[string]bool{}, preFams: pre, rootOf: map[string]string{}, refKinds: map[string]string{}, guardOf: map[string]string{},
 	}
 	pkg := fn.Pkg
 	if pkg == nil && fn.Parent() != nil {
